@@ -558,6 +558,12 @@ func (it *Interp) setupIntrinsics() {
 	T[zz("IteInt")] = iteFn
 	T[zz("IteF")] = iteFn
 	T[zz("IteU64")] = iteFn
+	T[zz("HalfToFloat64")] = func(it *Interp, fn *ssa.Function, a []Value) Value {
+		if it.mode != Bits {
+			it.outside("HalfToFloat64 in math mode")
+		}
+		return it.tb.HalfToFloat64(a[0].(*Term))
+	}
 	T[zz("Note")] = func(it *Interp, fn *ssa.Function, a []Value) Value {
 		it.pathNotes = append(it.pathNotes, cstr(it, a[0]))
 		return nil
@@ -711,8 +717,9 @@ func (it *Interp) setupIntrinsics() {
 			}
 			return r
 		}
-		it.outside("math.Pow with symbolic arguments")
-		return nil
+		// symbolic exponent (or base) that takes few values: concretise by forking
+		xv, yv := it.concretizeFloat(x), it.concretizeFloat(y)
+		return it.f64(math.Pow(xv, yv))
 	}
 	T["math.Atan2"] = func(it *Interp, fn *ssa.Function, a []Value) Value {
 		x, y := a[0].(*Term), a[1].(*Term)
@@ -1166,7 +1173,45 @@ func (it *Interp) setupIntrinsics() {
 	}
 	T["internal/bytealg.Equal"] = T["bytes.Equal"]
 
+	// compress/gzip: identity pass-through (DEFLATE/CRC are outside the encoder; the claims are about the
+	// layout inside the stream). NewReader returns a *gzip.Reader whose Read forwards to the wrapped reader.
+	T["compress/gzip.NewReader"] = func(it *Interp, fn *ssa.Function, a []Value) Value {
+		pkg := it.prog.ImportedPackage("compress/gzip")
+		rt := pkg.Type("Reader").Type()
+		o := it.newObject(it.zero(rt), rt)
+		it.gzipUnder[o] = a[0]
+		return Tuple{Ptr{Obj: o}, Iface{}}
+	}
+	T["(*compress/gzip.Reader).Read"] = func(it *Interp, fn *ssa.Function, a []Value) Value {
+		u, ok := it.gzipUnder[a[0].(Ptr).Obj]
+		if !ok {
+			it.outside("gzip.Reader not created by the stubbed NewReader")
+		}
+		ifc := u.(Iface)
+		m := it.findMethod(ifc.T, nil, "Read")
+		return it.call(m, []Value{ifc.V, a[1]}, nil)
+	}
+	T["(*compress/gzip.Reader).Close"] = func(it *Interp, fn *ssa.Function, a []Value) Value { return Iface{} }
+
 	it.setupCodecIntrinsics()
+}
+
+// concretizeFloat forks over the feasible values of a float term (intended for terms that take few values).
+func (it *Interp) concretizeFloat(t *Term) float64 {
+	if t.IsConst() {
+		return t.F
+	}
+	for tries := 0; tries < 64; tries++ {
+		v, ok := it.modelValue(t)
+		if !ok {
+			panic(pathEnd{"killed", "concretizeFloat: no (further) feasible value"})
+		}
+		if it.decide(it.tb.Same(t, v)) {
+			return v.F
+		}
+	}
+	it.outside("concretizeFloat: too many values")
+	return 0
 }
 
 func (it *Interp) stringSlice(vs []Value) Value {
